@@ -14,6 +14,8 @@ import (
 	"strings"
 	"time"
 
+	"github.com/fabiolb/fabio/config"
+	"github.com/fabiolb/fabio/metrics"
 	"github.com/fabiolb/fabio/route"
 )
 
@@ -25,7 +27,8 @@ var c02HostileHosts = []string{"[a", "a]", "{a,b}.com", "{a", "a\\", "\\", "*", 
 	"[::1]:80", "[::1", "xn--nxasmq6b.com", "a..com", ".", "%zz", "a b", "a\tb", "[a-z].com", "{a,{b,c}}.com", "[", "{", "}", "]", "*[", "a.com\\", "\\*", "[\\]", "[a\\]"}
 var c02HostilePaths = []string{"/", "", "/[", "/{a", "/a\\", "/*", "/**", "/a/[b-", "/%zz", "/a b", "/\\", "/{a,b}", "/[!a]", "/a]", "/?", "//", "/./..", "/{", "/[]", "/[a", "/\\["}
 var c02HostileDsts = []string{"http://a:80/", "http://[::1", "%zz", "http://a b/", "http://a:99999/", "tcp://:80", ":", "http://", "//", "http://[fe80::1%25en0]:80/", "http://a/%zz",
-	"https://$host$path", "http://a:b/", "http://u:p@a/", "\x7f", "http://a/?q=%zz", "ftp://a", "http://a:80", "a:80", "1.2.3.4:80", "http://%41:80/", "http://[::1]:80/$path"}
+	"https://$host$path", "http://a:b/", "http://u:p@a/", "\x7f", "http://a/?q=%zz", "ftp://a", "http://a:80", "a:80", "1.2.3.4:80", "http://%41:80/", "http://[::1]:80/$path",
+	"http://[fe80::1%25zon\u00e9]:8080/", "http://[fe80::1%25z\u00fc]/x"} // the last two parse, but their String() does not parse again
 
 func c02GenText(r *rand.Rand) string {
 	var lines []string
@@ -212,7 +215,31 @@ func c02Exercise(c *ctx, t route.Table, in any, r *rand.Rand) bool {
 	if !guarded(c, "Dump", in, func() { _ = t.Dump() }) {
 		return false
 	}
-	return guarded(c, "NewTable(String())", in, func() { newTable(s) })
+	if !guarded(c, "NewTable(String())", in, func() { newTable(s) }) {
+		return false
+	}
+	// what the proxies do with a target they picked: count and time through the target's metrics
+	return guarded(c, "target metrics", in, func() {
+		n := 0
+		for _, rs := range t {
+			for _, rt := range rs {
+				for _, tg := range rt.Targets {
+					if n++; n > 50 {
+						return
+					}
+					if tg.Timer != nil {
+						tg.Timer.Observe(0.01)
+					}
+					if tg.RxCounter != nil {
+						tg.RxCounter.Add(1)
+					}
+					if tg.TxCounter != nil {
+						tg.TxCounter.Add(1)
+					}
+				}
+			}
+		}
+	})
 }
 
 func c02Crash(c *ctx) {
@@ -223,6 +250,20 @@ func c02Crash(c *ctx) {
 	runBatches(c, "c02-crash", nb, 0, 20*time.Minute, func(c *ctx, batch int) {
 		li := newLastInput(c, batch)
 		r := c.rng(int64(50000 + batch))
+		// the metrics back end is part of what a route text runs into: every fourth batch with flat names (statsd),
+		// every fourth with prometheus labels
+		switch batch % 4 {
+		case 1:
+			if p, err := metrics.Initialize(&config.Metrics{Target: "statsd_raw", StatsDAddr: "127.0.0.1:9", Interval: time.Hour, Names: metrics.DefaultNames}); err == nil {
+				route.SetMetricsProvider(p)
+				c.R.Count("batches_with_statsd_metrics", 1)
+			}
+		case 2:
+			if p, err := metrics.Initialize(&config.Metrics{Target: "prometheus", Interval: time.Hour, Names: metrics.DefaultNames}); err == nil {
+				route.SetMetricsProvider(p)
+				c.R.Count("batches_with_prometheus_metrics", 1)
+			}
+		}
 		one := func(text string) {
 			t0 := time.Now()
 			defer func() {
